@@ -356,6 +356,14 @@ namespace sim
 				// address. Now, with a domain name, one of those bytes was the
 				// length-prefix, but we still read 3 bytes already.
 				const int additional_bytes = len - 3;
+				if (additional_bytes < 0)
+				{
+					// with a name this short we have already read past the end of
+					// the request
+					std::printf("ERROR: hostname too short\n");
+					close_connection();
+					return;
+				}
 				asio::async_read(m_client_connection, asio::buffer(&m_out_buffer[10], additional_bytes)
 					, std::bind(&socks_connection::on_request_domain_name
 						, shared_from_this(), std::placeholders::_1, std::placeholders::_2));
